@@ -40,10 +40,24 @@ import Pycel.Model.Engine
 namespace Pycel.Validate
 open Pycel Pycel.Engine
 
-/-- the two report classes of a raised exception -/
+/-- a raised exception as `validate_calcs` classifies it from the message text:
+    `exc` -> 'exceptions'; `notImpl` (a NotImplementedError raised by the cell's own formula: the last-but-one line
+    of the message starts with "NotImplementedError: ") and `unknownFn` (the message contains "is not implemented":
+    pycel's UnknownFunction) -> 'not-implemented'. -/
 inductive Fail where
-  | exc | notImpl
+  | exc | notImpl | unknownFn
   deriving DecidableEq, Repr, Inhabited
+
+/-- the class of an exception that reached the cell from a precedent: the wrapped message keeps the text
+    "is not implemented" but no longer ends with the "NotImplementedError: " line -/
+def Fail.nested : Fail → Fail
+  | .notImpl => .exc
+  | e => e
+
+/-- does the report list the exception under 'not-implemented' (else under 'exceptions') -/
+def Fail.isNotImplemented : Fail → Bool
+  | .exc => false
+  | _ => true
 
 /-- Everything `validate_calcs` is a function of. `g i env` = running the compiled formula of node `i` on the values
     `env` of its precedents: a value or a raised exception.  `close` = `close_enough` at the chosen tolerance,
@@ -91,7 +105,7 @@ def evalX : Nat → Nat → VS α → Option Fail × VS α
       | some _ => (none, s)
       | none =>
         match seqM (evalX fuel) (C.wb.deps i) s with
-        | (some e, s1) => (some e, s1)
+        | (some e, s1) => (some e.nested, s1)
         | (none, s1) =>
           match C.g i (valueOf C s1) with
           | .ok v => (none, { s1 with cache := update s1.cache i (some v) })
